@@ -75,3 +75,10 @@ package grpcv3
 //@   ensures ret0 != nil && ret0.reqURL != nil
 //@   ensures ret0.reqURL.Path == pathUnescape(ret0.reqURL.RawPath)
 //@   ensures epath.n > old(epath.n) && hasEncodedSlash(epath.ret0[epath.n - 1]) && !contains(epath.ret0[epath.n - 1], "?") ==> hasEncodedSlash(ret0.reqURL.RawPath)
+// C13 "the same request view ... URL": the query the pipeline sees is the request's query - what
+// follows the first '?' of the request target Envoy hands over, unless the query attribute carries it
+// (ghost log equery = HttpRequest.GetQuery)
+//@   ensures epath.n > old(epath.n) && equery.n > old(equery.n) && len(equery.ret0[equery.n - 1]) == 0 && contains(epath.ret0[epath.n - 1], "?") ==> epath.ret0[epath.n - 1] == ret0.reqURL.RawPath + "?" + ret0.reqURL.RawQuery
+//@   ensures epath.n > old(epath.n) && equery.n > old(equery.n) && len(equery.ret0[equery.n - 1]) == 0 && !contains(epath.ret0[epath.n - 1], "?") ==> ret0.reqURL.RawQuery == ""
+//@   ensures equery.n > old(equery.n) && len(equery.ret0[equery.n - 1]) != 0 ==> ret0.reqURL.RawQuery == equery.ret0[equery.n - 1]
+//@   ensures equery.n == old(equery.n) + 1 && epath.n == old(epath.n) + 1
